@@ -158,6 +158,8 @@ _ASNS = ["65001", "64512", "123", "7", "4200000001", "10"]
 def _case(draw):
     cfg = draw(G.config())
     words = draw(st.lists(st.sampled_from(_WORDS), min_size=1, max_size=4, unique=True))
+    if "net" not in words and draw(st.booleans()):
+        words.append("net")  # occurs in netconan's own scrub marker and pseudonyms: stages do interact on it
     asns = draw(st.lists(st.sampled_from(_ASNS), min_size=1, max_size=3, unique=True))
     reserved = draw(st.lists(st.sampled_from(["LabKey", "MgmtVlan", "zorgonX", "CoreRtr", "Public1"]), max_size=2, unique=True))
     lines = []
@@ -166,10 +168,10 @@ def _case(draw):
         w = draw(st.sampled_from(words))
         a = draw(st.sampled_from(asns))
         if k == 0:
-            form = draw(st.sampled_from(S.FORMS))
+            form = draw(st.sampled_from(S.FORMS if draw(st.integers(0, 3)) else [f for f in S.FORMS if f.mode != "pos"]))
             vals = []
             for _s in range(form.slots):
-                if reserved and draw(st.integers(0, 3)) == 0 and "exact" not in form.text_kw:
+                if reserved and draw(st.integers(0, 1)) == 0 and "exact" not in form.text_kw:
                     r = draw(st.sampled_from(reserved))
                     vals.append(draw(st.sampled_from([r, r.lower(), r.upper()])))
                 elif draw(st.integers(0, 4)) == 0 and "exact" not in form.text_kw:
@@ -202,7 +204,7 @@ def _case(draw):
         "words": words,
         "asns": asns,
         "reserved": reserved,
-        "features": draw(st.lists(st.booleans(), min_size=4, max_size=4)),
+        "features": draw(st.one_of(st.lists(st.booleans(), min_size=4, max_size=4), st.sampled_from([[True, False, True, False], [True, True, True, True], [True, False, True, True], [True, True, False, False]]))),
         "undo": draw(st.integers(0, 2)) == 0,
         "split_ip": draw(st.integers(0, 3)) == 0,
         "cli": draw(st.integers(0, 3)) == 0,
